@@ -240,7 +240,7 @@ def families(E, nmax):
 
 def harnesses(tier):
     q = tier == "quick"
-    T = 600 if q else 2400
+    T = 600 if q else 900
     hs = []
     for names in ('distinct', 'repeated'):
         k, w, a = (3, 3, 2) if q else (4, 3, 2)
